@@ -128,11 +128,47 @@ def run(tier, seed):
                 cases.append(('op %d %s %s' % (len(assign), env, ' '.join(toks)), g, {'formula': f, 'assignment': ai, 'route': 'override' if ai in (1, 5, 7) else 'workbook'}))
                 chk.count('assignment:%d' % ai)
     chk.judge('operators', cases, sample_cap=6)
+    twin_sheets(chk, rng, items)
     # formulas sit in the column after the operands: eval_formulas puts them at column max+2; operands A1..H1 occupy row 1 only
     malformed(chk, rng)
     literals(chk, tier)
     text_literals(chk)
     return chk.finish()
+
+
+def twin_sheets(chk, rng, items):
+    """the same formula texts (unqualified references) on two sheets of ONE workbook whose operand cells differ: each sheet's formulas read their own sheet -
+    every value equals the value of that formula in a workbook that holds that sheet alone"""
+    m = realcode.mods()
+    Cell = m['Cell']
+    chunk = rng.sample(items, min(len(items), 240))
+    formulas = [f for f, _, _ in chunk]
+    a0, a2 = ASSIGN[0], ASSIGN[2]
+    fcol = 9
+
+    def rows_for(assign):
+        rows = [[None] * (fcol + 1) for _ in range(max(2, len(formulas)))]
+        for c, v in enumerate(assign):
+            rows[0][c] = v
+        for i, f in enumerate(formulas):
+            rows[i][fcol] = f
+        return rows
+    alone = [realcode.eval_formulas(formulas, {(c, 0): v for c, v in enumerate(a) if v is not None}, min_rows=2, min_fcol=fcol) for a in (a0, a2)]
+    try:
+        cls = realcode.load_class(realcode.translate([('S', rows_for(a0)), ('Twin', rows_for(a2))]))
+    except Exception as e:  # noqa
+        chk.violation({'why': 'two sheets holding the same operator formulas do not translate as one workbook: %r' % (e,), 'stream': 'twin-sheets'})
+        return
+    ex = realcode.executor_for(cls)
+    for si in (1, 0):
+        for i, f in enumerate(formulas):
+            got = core.outcome(lambda: ex.get_cell(Cell(si, fcol, i)).value)
+            chk.count('law:twin-sheets')
+            if got != alone[si][i]:
+                chk.violation({'why': 'a formula evaluates differently when another sheet of the workbook holds the same formula text over other operands',
+                               'formula': f, 'sheet': ['S', 'Twin'][si], 'operands_of_the_sheet': repr([a0, a2][si]), 'impl': got, 'sheet_alone': alone[si][i],
+                               'stream': 'twin-sheets'})
+                return
 
 
 def random_chain(rng, n):
